@@ -52,6 +52,14 @@ type Exec struct {
 	inputs   []NamedTerm
 	ownRoot  types.Type
 	storeNew bool
+	entryMeasure string
+	preds    map[string]*predDef
+	unfolded map[string]bool
+	expandPreds bool
+	hookNew  Value
+	havocStore bool
+	transferred map[string]string
+	hookPtr  *Ptr
 	assumedClauses map[string]bool
 }
 
@@ -65,6 +73,17 @@ func (x *Exec) ownerFor(key, base string, idx []string) *Owner {
 		}
 	}
 	return nil
+}
+
+// regionOf resolves the region of a slice whose array was transferred into a
+// field's region after the SSA value was created.
+func (x *Exec) regionOf(s SliceV) SliceV {
+	if s.Region == "" {
+		if r, ok := x.transferred[s.Base]; ok {
+			s.Region = r
+		}
+	}
+	return s
 }
 
 type loopInfo struct {
@@ -264,6 +283,9 @@ func (x *Exec) loadAt(st *State, t types.Type, key, base string, idx []string) V
 			Elem: u.Elem(),
 			Own:  x.ownerFor(key, base, idx),
 		}
+		if x.P.specs.Owned[key] {
+			sv.Region = key
+		}
 		x.assumeSliceWf(sv, st)
 		return sv
 	case *types.Interface:
@@ -315,7 +337,34 @@ func (x *Exec) storeAt(st *State, t types.Type, key, base string, idx []string, 
 		}
 		return
 	case *types.Slice:
-		s := x.asSlice(v, u.Elem())
+		s := x.regionOf(x.asSlice(v, u.Elem()))
+		destRegion := ""
+		if x.P.specs.Owned[key] {
+			destRegion = key
+		}
+		if s.Region != destRegion && s.Base != "0" && !x.havocStore {
+			if s.Region != "" {
+				x.fail("array of region %s stored into %s: arrays shared between fields are outside the modelled subset", s.Region, key)
+			}
+			// ownership transfer of a not-yet-owned array into the field's region
+			if !s.New {
+				x.note("array passed in by the caller is stored into %s: assumed not to be referenced from elsewhere afterwards", key)
+			}
+			var src, dst [][2]string
+			x.elemLeaves(u.Elem(), s.key(), &src)
+			x.elemLeaves(u.Elem(), rootKey(sliceRoot(u.Elem(), destRegion)), &dst)
+			for i := range src {
+				sl := x.leaf(src[i][0], 1, src[i][1])
+				dl := x.leaf(dst[i][0], 1, dst[i][1])
+				cur := x.heapGet(st, dl)
+				st.Heap[dl.Key] = x.em.define("H.xfer", dl.ArraySort(), "(store "+cur+" "+s.Base+" (select "+x.heapGet(st, sl)+" "+s.Base+"))")
+				saved := x.storeNew
+				x.storeNew = s.New
+				x.recordWrite(dl.Key, s.Base, false)
+				x.storeNew = saved
+			}
+			x.transferred[s.Base] = destRegion
+		}
 		x.leafStore(st, key+"#base", base, idx, "Int", s.Base)
 		x.leafStore(st, key+"#off", base, idx, "(_ BitVec 64)", s.Off)
 		x.leafStore(st, key+"#len", base, idx, "(_ BitVec 64)", s.Len)
@@ -659,6 +708,17 @@ func (x *Exec) iteValue(c string, a, b Value) Value {
 			r.Own = av.Own
 		}
 		r.New = av.New && bv.New
+		ar, br := x.regionOf(av).Region, x.regionOf(bv).Region
+		switch {
+		case ar == br:
+			r.Region = ar
+		case av.Base == "0":
+			r.Region = br
+		case bv.Base == "0":
+			r.Region = ar
+		default:
+			x.fail("merge of slices from different regions (%q, %q)", ar, br)
+		}
 		return r
 	case Iface:
 		bv := x.asIface(b, av.Typ)
@@ -854,7 +914,18 @@ func (x *Exec) newFrame(fn *ssa.Function, spec *FuncSpec, prefix string) *Frame 
 }
 
 func (x *Exec) runBody(fr *Frame, st0 *State) (*State, Value) {
+	return x.runBodyWith(fr, st0, nil)
+}
+
+// runBodyWith runs the body; perRet (if any) sees every return path before
+// the paths are merged, so that exit obligations can be checked per path.
+func (x *Exec) runBodyWith(fr *Frame, st0 *State, perRet func(k, n int, r *retInfo)) (*State, Value) {
 	x.runRegion(fr, rpo(fr.fn), fr.fn.Blocks[0], st0, nil)
+	if perRet != nil {
+		for k := range fr.rets {
+			perRet(k, len(fr.rets), &fr.rets[k])
+		}
+	}
 	if len(fr.rets) == 0 {
 		// function never returns normally
 		st := st0.clone()
@@ -871,6 +942,18 @@ func (x *Exec) runBody(fr *Frame, st0 *State) (*State, Value) {
 		val = x.iteValue(fr.rets[i].st.Reach, fr.rets[i].val, val)
 	}
 	return out, val
+}
+
+func trivialReturn(b *ssa.BasicBlock) bool {
+	for _, in := range b.Instrs {
+		switch in.(type) {
+		case *ssa.Phi, *ssa.DebugRef, *ssa.Return:
+		default:
+			return false
+		}
+	}
+	_, ok := b.Instrs[len(b.Instrs)-1].(*ssa.Return)
+	return ok
 }
 
 func (x *Exec) zeroResults(fn *ssa.Function) Value {
@@ -914,6 +997,22 @@ func (x *Exec) runRegion(fr *Frame, order []*ssa.BasicBlock, start *ssa.BasicBlo
 				ins = append(ins, edgeIn{cond: c, st: ps, pred: p})
 			}
 			if len(ins) == 0 {
+				continue
+			}
+			if only == nil && x.discover == 0 && fr.isTop && len(ins) > 1 && len(ins) <= 8 && fr.loops[b.Index] == nil && trivialReturn(b) {
+				// tail duplication: one return path per incoming edge (no merge)
+				for _, in := range ins {
+					pst := in.st.clone()
+					pst.Reach = in.cond
+					for _, instr := range b.Instrs {
+						switch i := instr.(type) {
+						case *ssa.Phi:
+							fr.vals[i] = x.phiValue(fr, i, []edgeIn{in})
+						case *ssa.Return:
+							x.step(fr, pst, i)
+						}
+					}
+				}
 				continue
 			}
 			st = x.merge(ins)
@@ -1125,8 +1224,8 @@ func (x *Exec) loopHeader(fr *Frame, l *loopInfo, stEntry *State, ins []edgeIn, 
 			}
 		}
 		for _, c := range l.spec.Invs {
-			p := x.evalBool(env, c.Expr)
-			x.oblige(fr, stEntry, fmt.Sprintf("loop%d/inv-entry:%s", l.ordinal, c.Label), "loop-invariant", p, c)
+			p, alt := x.evalBoolAlt(env, c.Expr)
+			x.obligeAlt(fr, stEntry, fmt.Sprintf("loop%d/inv-entry:%s", l.ordinal, c.Label), "loop-invariant", p, alt, c)
 		}
 	}
 	// 3. havoc
@@ -1194,6 +1293,12 @@ func (x *Exec) loopHeader(fr *Frame, l *loopInfo, stEntry *State, ins []edgeIn, 
 	st.Frontier = nf
 	for _, phi := range phis {
 		fr.vals[phi] = x.freshValue(phi.Type(), phi.Comment, st)
+		if sv, ok := fr.vals[phi].(SliceV); ok {
+			if ev, ok := entryVals[phi].(SliceV); ok {
+				sv.Region = x.regionOf(ev).Region
+				fr.vals[phi] = sv
+			}
+		}
 		if phiNew[phi] {
 			sv := fr.vals[phi].(SliceV)
 			sv.New = true
@@ -1258,8 +1363,8 @@ func (x *Exec) backEdge(fr *Frame, l *loopInfo, from *ssa.BasicBlock, st *State)
 		}
 	}
 	for _, cl := range l.spec.Invs {
-		p := x.evalBool(env, cl.Expr)
-		x.oblige(fr, est, fmt.Sprintf("loop%d/inv-step:%s", l.ordinal, cl.Label), "loop-invariant", p, cl)
+		p, alt := x.evalBoolAlt(env, cl.Expr)
+		x.obligeAlt(fr, est, fmt.Sprintf("loop%d/inv-step:%s", l.ordinal, cl.Label), "loop-invariant", p, alt, cl)
 	}
 	if l.spec.Decr != nil && l.variant0 != "" {
 		v := x.term(x.toBV64(x.evalExpr(env, l.spec.Decr.Expr)))
@@ -1278,10 +1383,14 @@ func (x *Exec) pos(p token.Pos) string {
 }
 
 func (x *Exec) oblige(fr *Frame, st *State, name, kind, prop string, c *Clause) {
+	x.obligeAlt(fr, st, name, kind, prop, "", c)
+}
+
+func (x *Exec) obligeAlt(fr *Frame, st *State, name, kind, prop, alt string, c *Clause) {
 	if x.pure > 0 || x.em.discard {
 		return
 	}
-	o := &Obligation{Name: x.topKey + "/" + fr.prefix + name, Kind: kind, Guard: st.Reach, Prop: prop, FnName: x.topKey, Inputs: x.inputs}
+	o := &Obligation{Name: x.topKey + "/" + fr.prefix + name, Kind: kind, Guard: st.Reach, Prop: prop, AltProp: alt, FnName: x.topKey, Inputs: x.inputs}
 	if c != nil {
 		o.Props = append(o.Props, c.Props...)
 		o.Src = c.Src
